@@ -179,7 +179,42 @@ func runOrd2(m *Model, r *RuleResult) {
 			}
 		}
 	})
-	okDom := len(outStores) >= 3 && restore != nil
+	// output built by helper functions of the package: calls whose callee (transitively, same package) stores the output fields
+	var writesOut func(f *ssa.Function, depth int) bool
+	writesOut = func(f *ssa.Function, depth int) bool {
+		if f == nil || depth > 3 || pkgPathOf(f) != pkgPathOf(layout) {
+			return false
+		}
+		e := m.Effects(f)
+		if e == nil {
+			return false
+		}
+		for _, w := range e.Writes {
+			switch w.Loc {
+			case pubNode + ".ID", pubEdge + ".FromID", pubEdge + ".ToID":
+				return true
+			}
+		}
+		res := false
+		eachInstr(f, func(in ssa.Instruction) {
+			if ci, ok := in.(ssa.CallInstruction); ok {
+				if c := ci.Common().StaticCallee(); c != nil && c != f && writesOut(c, depth+1) {
+					res = true
+				}
+			}
+		})
+		return res
+	}
+	nHelper := 0
+	eachInstr(layout, func(in ssa.Instruction) {
+		if ci, ok := in.(ssa.CallInstruction); ok {
+			if c := ci.Common().StaticCallee(); c != nil && c != layout && writesOut(c, 0) {
+				outStores = append(outStores, in)
+				nHelper++
+			}
+		}
+	})
+	okDom := (len(outStores) >= 3 || nHelper >= 1) && restore != nil
 	for _, s := range outStores {
 		if restore == nil || !instrDominates(restore, s) || !instrDominates(unrevC, s) {
 			okDom = false
@@ -264,37 +299,75 @@ func runOrd3(m *Model, r *RuleResult) {
 		r.undecided("anchor:Layout", "-", "autog.Layout", "not found")
 		return
 	}
-	var fixed, sized, comp ssa.Instruction
-	eachInstr(layout, func(in ssa.Instruction) {
+	isDynVia := func(in ssa.Instruction, field string) bool {
 		ci, ok := in.(ssa.CallInstruction)
-		if !ok {
-			return
-		}
-		if c := ci.Common().StaticCallee(); c != nil && c.Name() == "Components" {
-			comp = in
-		}
-		if ci.Common().IsInvoke() || ci.Common().StaticCallee() != nil {
-			return
+		if !ok || ci.Common().IsInvoke() || ci.Common().StaticCallee() != nil {
+			return false
 		}
 		for _, o := range originsOf(ci.Common().Value, 0) {
-			if o.Kind == "fieldload" {
-				switch o.Loc {
-				case "autog.options.params.NodeFixedSizeFunc", igPar + ".NodeFixedSizeFunc":
-					fixed = in
-				case "autog.options.params.NodeSizeFunc", igPar + ".NodeSizeFunc":
-					sized = in
+			if o.Kind == "fieldload" && (o.Loc == "autog.options.params."+field || o.Loc == igPar+"."+field) {
+				return true
+			}
+		}
+		return false
+	}
+	predFixed := func(in ssa.Instruction) bool { return isDynVia(in, "NodeFixedSizeFunc") }
+	predSized := func(in ssa.Instruction) bool { return isDynVia(in, "NodeSizeFunc") }
+	predComp := func(in ssa.Instruction) bool {
+		ci, ok := in.(ssa.CallInstruction)
+		if !ok {
+			return false
+		}
+		c := ci.Common().StaticCallee()
+		return c != nil && c.Name() == "Components" && shortPkg(pkgPathOf(c)) == "internal/graph/connected"
+	}
+	var orderedAB func(f *ssa.Function, depth int) (bool, bool)
+	// orderedAB: (found both kinds, every fixed-size event precedes every per-node-size event) inside f
+	orderedAB = func(f *ssa.Function, depth int) (bool, bool) {
+		as := m.eventSites(f, predFixed, 0)
+		bs := m.eventSites(f, predSized, 0)
+		if len(as) == 0 || len(bs) == 0 {
+			return false, true
+		}
+		ok := true
+		for _, a := range as {
+			for _, b := range bs {
+				if a == b {
+					if depth > 3 {
+						ok = false
+						continue
+					}
+					ci := a.(ssa.CallInstruction)
+					if _, o := orderedAB(ci.Common().StaticCallee(), depth+1); !o {
+						ok = false
+					}
+					continue
+				}
+				if !instrReaches(a, b) || blockReaches(b.Block(), a.Block()) {
+					ok = false
 				}
 			}
 		}
-	})
-	if fixed == nil || sized == nil || comp == nil {
-		r.undecided("size-loops", m.Pos(layout.Pos()), "Layout calls NodeFixedSizeFunc, NodeSizeFunc and connected.Components", "anchor call not found")
+		return true, ok
+	}
+	found, okAB := orderedAB(layout, 0)
+	comps := m.eventSites(layout, predComp, 0)
+	if !found || len(comps) == 0 {
+		r.undecided("size-loops", m.Pos(layout.Pos()), "Layout calls NodeFixedSizeFunc, NodeSizeFunc and connected.Components (directly or through helpers of its package)", "anchor call not found")
 	} else {
-		ok := instrReaches(fixed, sized) && !blockReaches(sized.Block(), fixed.Block()) && !instrReaches(comp, fixed) && !instrReaches(comp, sized) && instrReaches(sized, comp)
+		ok := okAB
+		for _, c := range comps {
+			for _, x := range append(m.eventSites(layout, predFixed, 0), m.eventSites(layout, predSized, 0)...) {
+				if x == c || instrReaches(c, x) || !instrReaches(x, c) {
+					ok = false
+				}
+			}
+		}
+		pos := m.Pos(layout.Pos())
 		if ok {
-			r.holds("size-order", m.Pos(fixed.Pos()), "fixed size is applied first, per-node sizes second, both before the graph is split and processed")
+			r.holds("size-order", pos, "fixed size is applied first, per-node sizes second, both before the graph is split and processed")
 		} else {
-			r.violation("size-order", m.Pos(fixed.Pos()), "fixed size first, per-node override second, both before the pipeline", "the per-node size would be overwritten by the fixed size, or sizes applied after positioning")
+			r.violation("size-order", pos, "fixed size first, per-node override second, both before the pipeline", "the per-node size would be overwritten by the fixed size, or sizes applied after positioning")
 		}
 	}
 	// closures stored into Params.NodeSizeFunc
@@ -1220,13 +1293,34 @@ func runEff2(m *Model, r *RuleResult) {
 		}
 		// the collection condition is From == To on the same edge
 		selfCond := false
-		eachInstr(isl, func(in ssa.Instruction) {
-			if bo, ok := in.(*ssa.BinOp); ok && bo.Op == token.EQL {
-				if (isLoadOf(bo.X, igEdge+".From") && isLoadOf(bo.Y, igEdge+".To")) || (isLoadOf(bo.X, igEdge+".To") && isLoadOf(bo.Y, igEdge+".From")) {
-					selfCond = true
+		isSelfTest := func(f *ssa.Function) bool {
+			found := false
+			eachInstr(f, func(in ssa.Instruction) {
+				if bo, ok := in.(*ssa.BinOp); ok && bo.Op == token.EQL {
+					if (isLoadOf(bo.X, igEdge+".From") && isLoadOf(bo.Y, igEdge+".To")) || (isLoadOf(bo.X, igEdge+".To") && isLoadOf(bo.Y, igEdge+".From")) {
+						found = true
+					}
 				}
-			}
-		})
+			})
+			return found
+		}
+		selfCond = isSelfTest(isl)
+		if !selfCond {
+			// through a one-line accessor such as (*Edge).SelfLoops whose result is branched on
+			eachInstr(isl, func(in ssa.Instruction) {
+				if call, ok := in.(*ssa.Call); ok {
+					if c := call.Call.StaticCallee(); c != nil && inModule(c) && len(c.Blocks) == 1 && isSelfTest(c) {
+						if refs := call.Referrers(); refs != nil {
+							for _, ref := range *refs {
+								if _, isIf := ref.(*ssa.If); isIf {
+									selfCond = true
+								}
+							}
+						}
+					}
+				}
+			})
+		}
 		if selfCond {
 			r.holds("selfloop-test", pos, "edges are collected under e.From == e.To")
 		} else {
